@@ -444,8 +444,13 @@ func memTree(bool) {
 		r.Note("harness error: %v", err)
 		r.Finish()
 	}
-	sub := types.ConfSub(env.Cfg, "mavl")
-	if sub == nil || !sub.IsEnable("enableMemTree") {
+	var sub struct {
+		EnableMemTree bool `json:"enableMemTree"`
+	}
+	if raw := env.Cfg.GetSubConfig().Store["mavl"]; raw != nil {
+		json.Unmarshal(raw, &sub)
+	}
+	if !sub.EnableMemTree {
 		r.Note("the mem-tree configuration edit did not take; configuration skipped")
 		env.P.Close()
 		return
